@@ -411,7 +411,18 @@ def RTCSctpTransport(rng, inst):
             st_ = IS()
             st_.sequence_number = rng.choice([0, 1, 7, 65535])
             t._inbound_streams[sid] = st_
-    t._last_received_tsn = rng.choice([0, 9, (1 << 32) - 1])
+    t._last_received_tsn = rng.choice([0, 9, (1 << 32) - 3, (1 << 32) - 2, (1 << 32) - 1])
+    # TSNs received out of order: a few of the next numbers after the cumulative point (which may lie across the wrap)
+    t._sack_misordered = set((t._last_received_tsn + d) % (1 << 32) for d in rng.sample([2, 3, 4, 5], rng.randrange(4)))
+    t._sack_duplicates = []
+    t._sack_needed = False
+    t._advertised_rwnd = 131072
+    if rng.random() < 0.6:
+        for d in rng.sample([1, 2, 3, 0, 6], rng.randrange(1, 4)):
+            try:
+                t._mark_received((t._last_received_tsn + d) % (1 << 32))
+            except Exception:
+                pass
     if t._association_state == T.State.ESTABLISHED and rng.random() < 0.3:
         # the peer resets some of its outgoing streams (judged by the scenario search for that unit)
         import asyncio
@@ -421,6 +432,18 @@ def RTCSctpTransport(rng, inst):
                   last_tsn=rng.choice([t._last_received_tsn, (t._last_received_tsn + 5) % (1 << 32)]), streams=ids)
         try:
             asyncio.new_event_loop().run_until_complete(t._receive_reconfig_param(req))
+        except Exception:
+            pass
+    if rng.random() < 0.3:
+        # a FORWARD-TSN from the peer (judged by the scenario search for that unit): cumulative point moved ahead, possibly
+        # across the wrap, naming some streams with the last skipped stream sequence number
+        import asyncio
+        from aiortc.rtcsctptransport import ForwardTsnChunk as FT
+        ft = FT()
+        ft.cumulative_tsn = (t._last_received_tsn + rng.choice([0, 1, 2, 3, (1 << 32) - 1])) % (1 << 32)
+        ft.streams = [(sid_, rng.choice([0, 5, 65534, 65535])) for sid_ in list(t._inbound_streams)[:2] + [9] if rng.random() < 0.7]
+        try:
+            asyncio.new_event_loop().run_until_complete(t._receive_forward_tsn_chunk(ft))
         except Exception:
             pass
     # stream resets: some registered channels are closing; the first few are in an outstanding request, the rest queued
